@@ -542,3 +542,80 @@ Print Assumptions C10_passes_assert_kfl_init_range.
 
 (* Linear: the layer has no library initialiser (kernel_initializer defaults to the
    Keras 'random_uniform'); nothing to state for C10. *)
+
+(* ================================================================================= *)
+(* KroneckerFactoredLattice: the FRESH layer's FUNCTION is monotone and within bounds  *)
+(* ================================================================================= *)
+(* "the KroneckerFactoredLattice initial kernel, scale and bias give a monotone function
+   within bounds", for the layer's real function: MK.unit_out (Model/KFL.v, property
+   C07's model of KroneckerFactoredLattice.call: per-dimension linear interpolation of
+   the kernel columns, product over the dimensions, scale, mean over the terms, bias)
+   on the parameters premade_kfl_init c dims units terms samples =
+     kernel column (u, t, d) = kfl_init_col any_mono mono_d scale_t (samples u t d)
+                               (kfl_random_monotonic_initializer; C10_kfl_init_kernel),
+     scale = ScaleInitializer, bias = BiasInitializer,
+   for EVERY uniform draw `samples` inside the initialisation range; no constraint has
+   been applied.  Vocabulary as in Props/C07.v (cfg_ok, coords_le, in_range).
+   Proofs/KFLInitFunction.v composes C03_init_feasible_kfl_initializers (fresh
+   parameters are feasible) with the C07 function-level lemmas. *)
+From TFL Require Import Model.PremadeKFL Proofs.PremadeKFL Proofs.PremadeInitKFL Proofs.KFLInitFunction.
+
+(* monotone: any init range [imin, imax] with 0 <= imin and, when a bound is configured, imax <= 1 *)
+Theorem C10_kfl_fresh_function_monotone : forall c dims units terms imin imax samples ms u xs ys,
+  PK.cfg_ok c dims -> 0 <= imin -> (MK.has_bounds c = true -> imax <= 1) ->
+  kfl_samples_ok c dims units terms imin imax samples ->
+  MK.canon_monos (MK.c_monos c) = Some ms -> PK.coords_le ms xs ys ->
+  MK.c_clip c = true \/ (PK.in_range (MK.c_size c) xs /\ PK.in_range (MK.c_size c) ys) ->
+  MK.unit_out c (premade_kfl_init c dims units terms samples) u xs <=
+  MK.unit_out c (premade_kfl_init c dims units terms samples) u ys.
+Proof. exact kfl_fresh_function_monotone. Qed.
+Print Assumptions C10_kfl_fresh_function_monotone.
+
+(* within the configured bound(s), one- or two-sided *)
+Theorem C10_kfl_fresh_function_bounded : forall c dims units terms imin imax samples u xs,
+  PK.cfg_ok c dims -> 0 <= imin -> (MK.has_bounds c = true -> imax <= 1) ->
+  kfl_samples_ok c dims units terms imin imax samples ->
+  (u < units)%nat -> length xs = dims -> MK.c_clip c = true \/ PK.in_range (MK.c_size c) xs ->
+  (forall lo, MK.c_min c = Some lo -> lo <= MK.unit_out c (premade_kfl_init c dims units terms samples) u xs) /\
+  (forall hi, MK.c_max c = Some hi -> MK.unit_out c (premade_kfl_init c dims units terms samples) u xs <= hi).
+Proof. exact kfl_fresh_function_bounded. Qed.
+Print Assumptions C10_kfl_fresh_function_bounded.
+
+(* the layer's default init range kfl_lib.default_init_params(output_min, output_max)
+   ((0.5, 1.5) without bounds, (0, 1) with a bound: the model H_C10 compares) needs no
+   hypothesis on the range *)
+Theorem C10_kfl_fresh_function_default_range : forall c dims units terms samples,
+  PK.cfg_ok c dims ->
+  kfl_samples_ok c dims units terms (fst (kfl_default_init_params (MK.c_min c) (MK.c_max c)))
+                 (snd (kfl_default_init_params (MK.c_min c) (MK.c_max c))) samples ->
+  let p := premade_kfl_init c dims units terms samples in
+  (forall ms u xs ys, MK.canon_monos (MK.c_monos c) = Some ms -> PK.coords_le ms xs ys ->
+     MK.c_clip c = true \/ (PK.in_range (MK.c_size c) xs /\ PK.in_range (MK.c_size c) ys) ->
+     MK.unit_out c p u xs <= MK.unit_out c p u ys) /\
+  (forall u xs, (u < units)%nat -> length xs = dims -> MK.c_clip c = true \/ PK.in_range (MK.c_size c) xs ->
+     (forall lo, MK.c_min c = Some lo -> lo <= MK.unit_out c p u xs) /\
+     (forall hi, MK.c_max c = Some hi -> MK.unit_out c p u xs <= hi)).
+Proof. exact kfl_fresh_function_default. Qed.
+Print Assumptions C10_kfl_fresh_function_default_range.
+
+(* the scale / bias initialiser models used above (Model/KFL.v) equal the ones H_C10.check
+   compares with the layer's fresh scale and bias (Model/KFLInit.v) *)
+Theorem C10_kfl_init_models_agree : forall c units terms,
+  Forall2 (Forall2 Qeq) (kfl_scale_init units terms (MK.c_min c) (MK.c_max c)) (MK.scale_init c units terms) /\
+  Forall2 Qeq (kfl_bias_init units (MK.c_min c) (MK.c_max c)) (MK.bias_init c units).
+Proof. intros c units terms. split. apply scale_models_agree. apply bias_models_agree. Qed.
+Print Assumptions C10_kfl_init_models_agree.
+
+(* the hypotheses are satisfiable (size 2, one monotone input, bounds [-1, 1], one unit, two
+   terms, the unsorted draw [3/4; 1/4] for both): f(0) = -1/4 <= f(1) = 1/4, inside [-1, 1] *)
+Example C10_kfl_fresh_function_example :
+  PK.cfg_ok lk_cfg 1 /\
+  kfl_samples_ok lk_cfg 1 1 2 (fst (kfl_default_init_params (MK.c_min lk_cfg) (MK.c_max lk_cfg)))
+                 (snd (kfl_default_init_params (MK.c_min lk_cfg) (MK.c_max lk_cfg))) exf_samples /\
+  MK.canon_monos (MK.c_monos lk_cfg) = Some [true] /\ PK.coords_le [true] [0] [1] /\
+  PK.in_range (MK.c_size lk_cfg) [0] /\ PK.in_range (MK.c_size lk_cfg) [1].
+Proof. exact exf_hypotheses. Qed.
+Example C10_kfl_fresh_function_example_values :
+  MK.unit_out lk_cfg (premade_kfl_init lk_cfg 1 1 2 exf_samples) 0 [0] == -(1#4) /\
+  MK.unit_out lk_cfg (premade_kfl_init lk_cfg 1 1 2 exf_samples) 0 [1] == 1#4.
+Proof. exact exf_values. Qed.
